@@ -1,21 +1,29 @@
 import Rare.Base.Proto
-import Rare.Model.C13
+import Rare.Model.C13Lower
 /-!
-Line-protocol ops of C13.  Common trailing fields describe the data and the library oracles:
+Line-protocol ops of C13.  Common trailing fields describe the data and the REMAINING library oracles
+(`dateparse.ParseFormat`, `time.Parse`).  `strconv.ParseFloat` and `strings.ToLower` are computed by
+the model (`realNum` over `F64.parseFloat`, `lowerK`), not passed in:
 
   <name>   hex of the `--sort` argument (e.g. `numeric:desc`)
   <keys>   hex list of distinct keys
   <values> `.` or comma separated integers (one per key)
-  <pf>     per key `e` (ParseFloat error) | `n` (NaN) | integer (order image of the float64)
   <df>     per key `x` (ParseFormat error) | layout id
   <dp>     `.` or rows separated by `/` (row i = layout id i), per key `x` | instant in ns
 
-  sort     <name> <keys> <values> <perm> <pf> <df> <dp>   the code as it is (closure state threaded
-                                                           through Go's insertion sort, n ≤ 12)
-  sortspec <name> <keys> <values> <perm> <pf> <df> <dp>   the specified order of the set
-  agg      <name> <keys> <values> <perm> <pf> <df> <dp>   same answer; the harness goes through the real aggregators
-  cmpseq   <name> <keys> <values> <pairs i-j,…> <pf> <df> <dp>   answers of ONE closure along a sequence
-  axioms   <name> <keys> <values> <pf> <df> <dp>          full comparison matrix (fresh closure per pair) + verdict
+  sort     <name> <keys> <values> <perm> <df> <dp>   the code as it is (closure state threaded
+                                                      through Go's insertion sort, n ≤ 12)
+  sortspec <name> <keys> <values> <perm> <df> <dp>   the specified order of the set
+  agg      <name> <keys> <values> <perm> <df> <dp>   same answer; the harness goes through the real aggregators
+  cmpseq   <name> <keys> <values> <pairs i-j,…> <df> <dp>   answers of ONE closure along a sequence
+  axioms   <name> <keys> <values> <df> <dp>          full comparison matrix (fresh closure per pair) + verdict
+
+  pf       <keys>           `strconv.ParseFloat` per key: `e` | `n` (NaN) | order image (`F64.key`)
+  smart    <keys>           full matrix of `ByNameSmart` (`byNameSmartF`, the Go-shaped comparator) + verdict
+  lower    <key> <runemap>  `strings.ToLower(key)`, byte for byte; `<runemap>` = `.` or `r:l,…` gives
+                            `unicode.ToLower` on the non-ASCII runes of the key (identity elsewhere)
+  fold     <key>            the ASCII string `ToLower(key)` if it is one (`foldLower`), else `none`
+  lowtab                    the non-ASCII runes that lower-case into ASCII
 -/
 namespace Rare.Drv.C13
 open Rare Rare.C13 Rare.Proto
@@ -24,8 +32,12 @@ def commaList (s : String) : List String := if s = "." then [] else s.splitOn ",
 
 def isAscii (k : Key) : Bool := k.all (· < 128)
 
-def parsePF (s : String) : Option PF :=
-  if s = "e" then some .err else if s = "n" then some .nan else s.toInt?.map .val
+/-- memoised function: the values on `keys` are computed once (same function, extensionally) -/
+def memo {β : Type} (f : Key → β) (keys : List Key) : Key → β :=
+  let tab := keys.map (fun k => (k, f k))
+  fun k => match tab.lookup k with
+    | some v => v
+    | none => f k
 
 def parseOptInt (s : String) : Option (Option Int) :=
   if s = "x" then some none else s.toInt?.map some
@@ -39,25 +51,24 @@ structure Data where
   values : List Int
   o : Oracle
 
-def parseData (name keys values pf df dp : String) : Option Data := do
+def parseData (name keys values df dp : String) : Option Data := do
   let name ← Hex.dec name
   let keys ← decHexList keys
   let values ← (commaList values).mapM String.toInt?
-  let pfs ← (commaList pf).mapM parsePF
   let dfs ← (commaList df).mapM parseOptNat
   let rows ← (if dp = "." then some [] else (dp.splitOn "/").mapM (fun r => (commaList r).mapM parseOptInt))
-  if values.length ≠ keys.length ∨ pfs.length ≠ keys.length ∨ dfs.length ≠ keys.length then none
+  if values.length ≠ keys.length ∨ dfs.length ≠ keys.length then none
   else if rows.any (fun r => r.length ≠ keys.length) then none
   else if ¬ keys.Nodup then none
   else
-    let numT := keys.zip pfs
     let fmtT := keys.zip dfs
     let rowsT := rows.map (fun r => keys.zip r)
+    let lib : DateLib := { dfmt := fun k => (fmtT.lookup k).getD none
+                           dparse := fun f k => ((rowsT.getD f []).lookup k).getD none }
+    let o := realOracle lib
+    -- `realNum` and `lowerK` are the modelled library calls; memoised on the keys of the case
     pure { name := name, keys := keys, values := values,
-           o := { lower := asciiLower
-                  num := fun k => (numT.lookup k).getD .err
-                  dfmt := fun k => (fmtT.lookup k).getD none
-                  dparse := fun f k => ((rowsT.getD f []).lookup k).getD none } }
+           o := { o with num := memo realNum keys, lower := memo lowerK keys } }
 
 def Data.items (d : Data) : List NV := (d.keys.zip d.values).map (fun p => ⟨p.1, p.2⟩)
 
@@ -78,24 +89,16 @@ def errWord : SortErr → String
   | .modifier => "err modifier"
   | .unknown => "err unknown"
 
-/-- Does the mode look at key spellings through `strings.ToLower`? -/
-def modeLowers : Mode → Bool
-  | .contextual | .date => true
-  | _ => false
-
 def bits (l : List Bool) : String := String.ofList (l.map (fun b => if b then '1' else '0'))
 
 /-- Resolve the sort name; `inl` is the final answer for errors / unmodelled inputs. -/
 def resolve (d : Data) : Sum String (Mode × Bool) :=
-  if ¬ isAscii d.name then .inl "unmodelled non-ascii-name"
-  else match parseSort d.o.lower d.name with
+  match parseSort d.o.lower d.name with
     | .error e => .inl (errWord e)
     | .ok (nm, rev) =>
       match lookupMode d.o.lower nm with
       | none => .inl (errWord .unknown)
-      | some m =>
-        if modeLowers m ∧ ¬ d.keys.all isAscii then .inl "unmodelled non-ascii-key"
-        else .inr (m, rev)
+      | some m => .inr (m, rev)
 
 def specLess (d : Data) (m : Mode) (rev : Bool) : NV → NV → Bool :=
   let l := modeSpecLess d.o sortSets d.items m
@@ -116,9 +119,51 @@ def verdict (n : Nat) (m : Nat → Nat → Bool) : String :=
       if i ≠ j ∧ j ≠ k ∧ i ≠ k ∧ m i j ∧ m j k ∧ ¬ m i k then some s!"trans:{i},{j},{k}" else none)))
     tr.getD "total"
 
+def pfWord : PF → String
+  | .err => "e"
+  | .nan => "n"
+  | .val o => toString o
+
+/-- `r:l,…` → `unicode.ToLower` on the listed runes, ASCII rule below 128, identity elsewhere -/
+def parseRuneMap (s : String) : Option (Nat → Nat) := do
+  let pairs ← (commaList s).mapM (fun w =>
+    match w.splitOn ":" with
+    | [a, b] => do let r ← a.toNat?; let l ← b.toNat?; pure (r, l)
+    | _ => none)
+  pure (fun r => if r < 128 then (if 65 ≤ r ∧ r ≤ 90 then r + 32 else r) else (pairs.lookup r).getD r)
+
+def matrixAnswer (n : Nat) (m : Nat → Nat → Bool) : String :=
+  let mat := (List.range n).flatMap (fun i => (List.range n).map (fun j => m i j))
+  s!"ok m={if n = 0 then "-" else bits mat} v={verdict n m}"
+
 def handle : List String → String
-  | [op, name, keys, values, extra, pf, df, dp] =>
-    match parseData name keys values pf df dp with
+  | ["pf", keys] =>
+    match decHexList keys with
+    | none => "bad-args"
+    | some ks => s!"ok {if ks.isEmpty then "." else ",".intercalate (ks.map (fun k => pfWord (realNum k)))}"
+  | ["smart", keys] =>
+    match decHexList keys with
+    | none => "bad-args"
+    | some ks =>
+      let arr := ks.toArray
+      matrixAnswer ks.length (fun i j => match arr[i]?, arr[j]? with
+        | some a, some b => byNameSmartF a b
+        | _, _ => false)
+  | ["lower", key, rm] =>
+    match Hex.dec key, parseRuneMap rm with
+    | some k, some tl => s!"ok {Hex.enc (goToLower tl k)}"
+    | _, _ => "bad-args"
+  | ["fold", key] =>
+    match Hex.dec key with
+    | none => "bad-args"
+    | some k => match foldLower k with
+      | some l => s!"ok {Hex.enc l}"
+      | none => "ok none"
+  | ["lowtab"] =>
+    let rs := (List.range 0x110000).filter (fun r => 128 ≤ r ∧ tlMin r < 128)
+    s!"ok {",".intercalate (rs.map (fun r => s!"{r}:{tlMin r}"))}"
+  | [op, name, keys, values, extra, df, dp] =>
+    match parseData name keys values df dp with
     | none => "bad-args"
     | some d =>
       let items := d.items
@@ -144,8 +189,8 @@ def handle : List String → String
             s!"ok {bits (runSeq s.cmp s.init pairs)}"
           | _, _ => "bad-args"
         else "bad-op"
-  | ["axioms", name, keys, values, pf, df, dp] =>
-    match parseData name keys values pf df dp with
+  | ["axioms", name, keys, values, df, dp] =>
+    match parseData name keys values df dp with
     | none => "bad-args"
     | some d =>
       match resolve d with
@@ -160,8 +205,7 @@ def handle : List String → String
           let m := fun (i j : Nat) => match arr[i]?, arr[j]? with
             | some a, some b => (s.cmp s.init a b).1
             | _, _ => false
-          let mat := (List.range n).flatMap (fun i => (List.range n).map (fun j => m i j))
-          s!"ok m={if n = 0 then "-" else bits mat} v={verdict n m}"
+          matrixAnswer n m
   | _ => "bad-op"
 
 end Rare.Drv.C13
